@@ -140,23 +140,4 @@ def _import_rows(chk, cfg):
     """rows owned by other properties that C01 depends on, evaluated here and tagged via=<owner>"""
     import core
     for owner, mod, rules in (("C06", "props.C06", ("R08", "S-extend")), ("C11", "props.C11", ("G02", "G05c/into_iter")), ("C03", "props.C03", ("R-index", "S-byte", "S-nth"))):
-        sub = core.Check(owner, chk.tier, chk.seed)
-        sub.cfg = cfg.name
-        m = __import__(mod, fromlist=["x"])
-        one = type("OneCfg", (), {"configs": lambda self, need_all_features=False: [cfg], "decls": {}, "tier": chk.tier})()
-        try:
-            m.run(one, sub)
-        except Exception as e:   # pragma: no cover
-            chk.cannot("import/" + owner, owner, "imported rows could not be evaluated: %r" % e)
-            continue
-        n = 0
-        for k, v in sub.violations.items():
-            if any(v.rule.startswith(r) for r in rules):
-                chk.ob("via=%s/%s" % (owner, v.rule), v.anchor, False, v.detail, v.where, v.kind)
-        for r, cnt in sub.rule_sites.items():
-            if any(r.startswith(x) for x in rules):
-                n += cnt
-                bad = len([v for v in sub.violations.values() if v.rule == r])
-                for _ in range(cnt - bad):
-                    chk.ob("via=%s/%s" % (owner, r), owner, True)
-        chk.count("imported rows from %s[%s]" % (owner, cfg.name), n)
+        core.import_rows(chk, cfg, owner, mod, rules)
